@@ -12,7 +12,6 @@ use midnight_circuits::{
     CircuitField,
 };
 use midnight_proofs::{circuit::{Layouter, Value}, plonk::Error};
-use midnight_zk_stdlib::ZkStdLib;
 use num_bigint::BigUint;
 use num_integer::Integer;
 use num_traits::{One, Zero};
@@ -576,11 +575,16 @@ where
     Nat(Vec<AssignedNative<F>>),
 }
 
-pub fn synth_field<K, L>(chip: &FC<K>, std: &ZkStdLib, l: &mut L, ex: &Exposer, op: &FOp, ins: &[V]) -> Result<(), Error>
+pub fn synth_field<K, L, N>(chip: &FC<K>, std: &N, l: &mut L, ex: &Exposer, op: &FOp, ins: &[V]) -> Result<(), Error>
 where
     K: CircuitField,
     MEP: FieldEmulationParams<F, K>,
     L: Layouter<F>,
+    N: AssignmentInstructions<F, AssignedBit<F>>
+        + AssignmentInstructions<F, AssignedByte<F>>
+        + PublicInputInstructions<F, AssignedBit<F>>
+        + PublicInputInstructions<F, AssignedByte<F>>
+        + PublicInputInstructions<F, AssignedNative<F>>,
 {
     use FOp::*;
     let m = K::modulus();
